@@ -14,7 +14,7 @@
     pattern_matches_eq_xp
     parser_accepts_subset_partial parser_accepts_steps_partial
     parse_print_tokens tokenize_print parse_print parser_accepts_subset select_text_eq_xp
-    select_text_eq_xp_nonpositional
+    select_text_eq_xp_nonpositional numOk_iff
 -/
 import Genshi.Model.Path
 import Genshi.Model.PathParse
@@ -29,6 +29,7 @@ import Genshi.Lemmas.PathParseChain
 import Genshi.Lemmas.PathParseSteps
 import Genshi.Lemmas.PathPrintPath
 import Genshi.Lemmas.PathPrintTok
+import Genshi.Lemmas.PathPrintNum
 import Genshi.Lemmas.PathChildPath
 import Genshi.Lemmas.PathUnion
 import Genshi.Lemmas.PathNonPos
@@ -259,7 +260,8 @@ example : parse "a[@n<=2 and not(@m)]/b//text()[2]|.//@x:y".toList = .ok
     EVERY AST in the printer's domain `Print.pathsOk` (a decidable syntactic condition: names
     are name tokens, a literal does not contain both quote characters, the attribute flag of a
     name test agrees with its axis, `concat` chains are well-formed with ≤ 99 arguments, a
-    numeral denotes its number — `Print.numOk`, see `numOk_examples`; no `matches` with three
+    number literal is a non-negative decimal — `Print.numOk`, which by `numOk_iff` holds for EVERY
+    `m / 10^e`: its numeral reads back as that very number; no `matches` with three
     arguments, no node-type test or `.` inside a predicate: the real parser has no spelling for
     those either).  `select_eq_xp_*` therefore speak about what `Path(text)` does for the text
     `Print.printPaths p` as soon as `tokenize (printPaths p) = pathsToks p` (`tokenize_print`, `parse_print`, `select_text_eq_xp` below). -/
@@ -281,6 +283,22 @@ example : Print.printPaths printDemo =
     "child :: a [ ( @ x or @ y ) and @ z = 1.50 ] [ not ( @ a < ( 1 < 2 ) ) ] / descendant :: text () [ 2 ] | attribute :: p : *".toList := by
   decide +kernel
 example : parseTokens (Print.pathsToks printDemo) = .ok printDemo := parse_print_tokens _ (by decide +kernel)
+
+/-- the side condition on number literals is no restriction: every non-negative decimal `m / 10^e`
+    (every number a literal can denote — a numeral has no sign, `-` is a name character) has a
+    numeral `digits[.digits]` that the tokenizer delivers as one token and `_primary_expr` reads
+    back as exactly `dec false m e`; NaN and negative numbers have no literal. -/
+theorem numOk_iff (x : XNum) : Print.numOk x = true ↔ ∃ m e, x = .dec false m e := by
+  constructor
+  · intro h
+    cases x with
+    | nan => simp [Print.numOk] at h
+    | dec neg m e =>
+      cases neg with
+      | true => simp [Print.numOk] at h
+      | false => exact ⟨m, e, rfl⟩
+  · rintro ⟨m, e, rfl⟩
+    exact Print.numOk_all m e
 
 /-- numerals read back as the numbers they print (the side condition `Print.numOk` on a few numbers) -/
 theorem numOk_examples :
